@@ -119,7 +119,12 @@ def run(rep):
     if rep.anchor("RevocationPair::new", rp):
         from .c15 import SubReport
         check_pair_values(SubReport(rep, "generated-decodes", "RevocationPair"), rp, "producer")
-    rep.ok("generated-decodes", "Signature / Balance (by reference)", sample="stored signatures passed R_ps incl. sigma1 != identity (C03 verify-then-transition); balances come from try_new / apply (C17 invariant-established)", nontrivial=False)
+    # stored balances come from try_new / apply (whole range 0 ..= 2^63-1, C17) and stored signatures passed R_ps incl.
+    # sigma1 != identity (C03): the decode-time validators must accept exactly those sets, or a legitimate stored
+    # stage (a channel at the edge of the range) does not restore
+    from ..core import RuleView
+    from .c15 import validators
+    validators(RuleView(rep, {"decode-invariant": "generated-decodes"}), None, None, only={"Balance", "Signature"})
     # ---- no hidden state
     roots = []
     for b in prog.bodies.values():
